@@ -188,16 +188,41 @@ def run(ctx, chk):
 
     RF = chk.rule("R-FRAME", "Instruction::assemble_into emits opcode, result type if any, result id if any, every operand in order, "
                   "then ORs (words emitted << 16) into the first word")
-    f = ctx.rspirv.fn("rspirv::binary::assemble", "assemble_into", "Instruction", "Assemble")
-    prob = frame_shape(f)
-    chk.check(RF, prob is None, "Instruction::assemble_into", prob or "", raw.where("assemble_into", "Instruction", "assemble.rs"))
-
-    RW = chk.rule("R-WORDS", "strings: assemble_str packs 4-byte little-endian chunks and always appends one final word built from a "
-                  "zero-initialised buffer holding the remainder (NUL terminator, zero padding); Decoder::string consumes "
+    from . import asmx
+    WF = raw.where("assemble_into", "Instruction", "assemble.rs")
+    for rtype in (True, False):
+        for rid in (True, False):
+            for opw in ([], [1], [1, 2, 3], [2] * 20):
+                inst = "Instruction::assemble_into(result type %s, result id %s, operand words %s)" % (rtype, rid, opw if len(opw) < 5 else "20x2")
+                try:
+                    words = asmx.frame(ctx, rtype, rid, opw)
+                except Anchor as ex:
+                    chk.bad(RF, inst, "not analysable: %s" % ex, WF, key="C02:frame-shape")
+                    continue
+                n = 1 + int(rtype) + int(rid) + sum(opw)
+                body = ([("sym", "RTYPE")] if rtype else []) + ([("sym", "RID")] if rid else []) + [("operand-word", i, j) for i, k in enumerate(opw) for j in range(k)]
+                first = asmx.norm_first(words[2]) if len(words) > 2 else None
+                cnt = None
+                if isinstance(first, tuple) and first[0] == "or" and first[1] == ("as", ("opcode",), "u32"):
+                    w = first[2]
+                    if isinstance(w, tuple) and w[0] == "w32" and all(isinstance(x, int) for x in w[1]):
+                        cnt = sum(x << (8 * i) for i, x in enumerate(w[1]))
+                    elif isinstance(w, int):
+                        cnt = w
+                good = words[:2] == [("pre", 0), ("pre", 1)] and cnt == (n << 16) and words[3:] == body
+                chk.check(RF, good, inst, "emits %s; expected first word opcode | (%d << 16) followed by result type, result id and the operand words in order" % (
+                    str(words[2:6])[:200], n), WF, key="C02:frame")
+    RW = chk.rule("R-WORDS", "strings: assemble_str emits, for every byte length, the full 4-byte little-endian chunks followed by exactly one "
+                  "final word holding the remaining bytes, zero padded (so a NUL terminator always follows); Decoder::string consumes "
                   "first_null/4 + 1 words")
-    f = ctx.rspirv.fn("rspirv::binary::assemble", "assemble_str")
-    prob = assemble_str_shape(f)
-    chk.check(RW, prob is None, "assemble_str", prob or "", raw.where("assemble_str", None, "assemble.rs"))
+    for n in range(0, 10):
+        inst = "assemble_str(%d bytes)" % n
+        try:
+            got = [asmx.as_w32(w) or w for w in asmx.string_words(ctx, n)]
+            chk.check(RW, got == asmx.expected_string_words(n), inst, "emits %s, expected %s" % (got, asmx.expected_string_words(n)), raw.where("assemble_str", None, "assemble.rs"),
+                      key="C02:assemble_str")
+        except Anchor as ex:
+            chk.bad(RW, inst, "not analysable: %s" % ex, raw.where("assemble_str", None, "assemble.rs"), key="C02:assemble_str-shape")
     sf = dm.get("string")
     prob = string_consumed_shape(sf["fn"]) if sf else "Decoder::string missing"
     chk.check(RW, prob is None, "Decoder::string:consumed-words", prob or "", raw.where("string", "Decoder"))
